@@ -736,3 +736,467 @@ Example chmod_then_chown_loses_setid :
   option_map i_mode (inodes (apply_ops e f [OFchmod 5 3565; OLchown [116] 0 0]) 5) = Some 493 /\
   option_map i_mode (inodes (apply_ops e f [OLchown [116] 0 0; OFchmod 5 3565]) 5) = Some 3565.
 Proof. vm_compute. split; reflexivity. Qed.
+
+(* ---------- frame of one handler run, any link count (C13 / C14) ---------- *)
+(* everything except the path p, its hidden temp name t, the inode ip of p, a stale temp file's inode and
+   inodes created by the run is as before *)
+Definition frame_inv (f0 : fs) (p t : path) (ip : N) (f : fs) : Prop :=
+  (forall q, q <> p -> q <> t -> names f q = names f0 q) /\
+  (forall j, j < next_ino f0 -> j <> ip -> names f0 t <> Some j -> inodes f j = inodes f0 j) /\
+  next_ino f0 <= next_ino f.
+
+Lemma pre_commit_frame f0 p t ip f : pre_commit f0 t f -> frame_inv f0 p t ip f.
+Proof.
+  intros (A & B & C & _). split; [|split].
+  - intros q _ Hq. apply A, Hq.
+  - intros j Hj _ Hs. apply B; assumption.
+  - exact C.
+Qed.
+
+(* operations on the file's own inode, and the final rename *)
+Definition own_op (p t : path) (ip : N) (o : op) : Prop :=
+  match o with
+  | OWrite i _ _ | OTruncate i _ | OFutimens i _ | OFchmod i _ => i = ip
+  | ORename a b => a = t /\ b = p
+  | OOpenWrite _ | OOpenRead _ | OFstat _ | OOpenDevNull => True
+  | OUnlink q => q = t
+  | _ => False
+  end.
+
+Lemma own_op_frame e f0 p t ip f o :
+  p <> t -> ip < next_ino f0 ->
+  (forall j, names f t = Some j -> names f0 t = Some j \/ next_ino f0 <= j) ->
+  (forall j, names f p = Some j -> j = ip \/ names f0 t = Some j \/ next_ino f0 <= j) ->
+  frame_inv f0 p t ip f -> own_op p t ip o -> frame_inv f0 p t ip (fst (apply_op e f o)).
+Proof.
+  intros Hpt Hip Ht Hp (A & B & C) Ho.
+  destruct o; cbn [own_op] in Ho; try contradiction; cbn [apply_op].
+  - destruct (names f p0); split; auto.
+  - split; auto.
+  - split; auto.
+  - (* unlink t *) subst p0. destruct (names f t) as [j|] eqn:Et; [|split; auto]. cbn [fst].
+    split; [|split].
+    + intros q Hq1 Hq2. rewrite upd_inode_names. cbn [set_name names]. rewrite path_eqb_neq by exact Hq2. apply A; assumption.
+    + intros k Hk Hk2 Hs. rewrite upd_inode_other.
+      * cbn [set_name inodes]. apply B; assumption.
+      * intros ->. destruct (Ht _ eq_refl) as [H|H]; [contradiction | lia].
+    + rewrite upd_inode_next. exact C.
+  - subst i. split; [|split]; cbn [fst]; rewrite ?upd_inode_names, ?upd_inode_next; auto.
+    intros j Hj Hj2 Hs. rewrite upd_inode_other by exact Hj2. apply B; assumption.
+  - subst i. split; [|split]; cbn [fst]; rewrite ?upd_inode_names, ?upd_inode_next; auto.
+    intros j Hj Hj2 Hs. rewrite upd_inode_other by exact Hj2. apply B; assumption.
+  - subst i. split; [|split]; cbn [fst]; rewrite ?upd_inode_names, ?upd_inode_next; auto.
+    intros j Hj Hj2 Hs. rewrite upd_inode_other by exact Hj2. apply B; assumption.
+  - (* rename t p *) destruct Ho as [-> ->]. destruct (names f t) as [i|] eqn:Et; [|split; auto]. cbn [fst].
+    split; [|split].
+    + intros q Hq1 Hq2. cbn [set_name names]. rewrite !path_eqb_neq by assumption.
+      destruct (names f p) as [j|]; [destruct (j =? i); [|rewrite upd_inode_names]|]; apply A; assumption.
+    + intros k Hk Hk2 Hs. cbn [set_name inodes].
+      destruct (names f p) as [j|] eqn:Ep; [|apply B; assumption].
+      destruct (j =? i); [apply B; assumption|].
+      rewrite upd_inode_other; [apply B; assumption|].
+      intros ->. destruct (Hp _ eq_refl) as [H|[H|H]]; [contradiction | contradiction | lia].
+    + cbn [set_name next_ino]. destruct (names f p) as [j|]; [destruct (j =? i); [|rewrite upd_inode_next]|]; exact C.
+  - destruct (names f p0); split; auto.
+  - subst i. split; [|split]; cbn [fst]; rewrite ?upd_inode_names, ?upd_inode_next; auto.
+    intros j Hj Hj2 Hs. rewrite upd_inode_other by exact Hj2. apply B; assumption.
+Qed.
+
+Definition fgood (f0 : fs) (p t : path) (ip : N) (f : fs) : Prop :=
+  frame_inv f0 p t ip f /\
+  (forall j, names f t = Some j -> names f0 t = Some j \/ next_ino f0 <= j) /\
+  (forall j, names f p = Some j -> j = ip \/ names f0 t = Some j \/ next_ino f0 <= j).
+
+Lemma clean_fgood f0 p t ip s :
+  p <> t -> names f0 p = Some ip -> clean f0 t s -> fgood f0 p t ip (s_fs s).
+Proof.
+  intros Hpt Hp [Hc _]. split; [apply pre_commit_frame, Hc|]. split.
+  - intros j Hj. apply (pre_commit_tmp_target _ _ _ _ Hc Hj).
+  - intros j Hj. destruct Hc as (A & _). rewrite A in Hj by exact Hpt. rewrite Hp in Hj. injection Hj as <-. left. reflexivity.
+Qed.
+
+(* operations that leave all names alone, or only remove the temp name *)
+Definition inode_or_unlink (t : path) (ip : N) (o : op) : Prop :=
+  match o with
+  | OWrite i _ _ | OTruncate i _ | OFutimens i _ => i = ip
+  | OUnlink q => q = t
+  | _ => False
+  end.
+
+Lemma inode_or_unlink_good e f0 p t ip f o :
+  p <> t -> ip < next_ino f0 -> fgood f0 p t ip f -> inode_or_unlink t ip o -> fgood f0 p t ip (fst (apply_op e f o)).
+Proof.
+  intros Hpt Hip (Hf & HT & HP) Ho.
+  assert (Hown : own_op p t ip o) by (destruct o; cbn in *; auto; contradiction).
+  split; [apply own_op_frame; assumption|].
+  destruct o; cbn [inode_or_unlink] in Ho; try contradiction; cbn [apply_op].
+  - subst p0. destruct (names f t) as [j|] eqn:Et; cbn [fst].
+    2:{ split; [intros j Hj; rewrite Et in Hj; discriminate | exact HP]. }
+    rewrite upd_inode_names. cbn [set_name names]. split.
+    + rewrite path_eqb_refl. discriminate.
+    + rewrite path_eqb_neq by exact Hpt. exact HP.
+  - cbn [fst]. rewrite upd_inode_names. split; assumption.
+  - cbn [fst]. rewrite upd_inode_names. split; assumption.
+  - cbn [fst]. rewrite upd_inode_names. split; assumption.
+Qed.
+
+Lemma issue_fgood e fault f0 p t ip o s :
+  p <> t -> ip < next_ino f0 -> fgood f0 p t ip (s_fs s) -> inode_or_unlink t ip o ->
+  fgood f0 p t ip (s_fs (fst (issue e fault o s))).
+Proof.
+  intros Hpt Hip H Ho. destruct (issue_fs e fault o s) as [E|[E _]]; rewrite E; [exact H|].
+  apply inode_or_unlink_good; assumption.
+Qed.
+
+Lemma cleanup_fgood e fault f0 p t ip o s :
+  p <> t -> ip < next_ino f0 -> fgood f0 p t ip (s_fs s) -> fgood f0 p t ip (s_fs (cleanup e fault t o s)).
+Proof.
+  intros Hpt Hip H. destruct o; cbn [cleanup]; try exact H. apply issue_fgood; try assumption. reflexivity.
+Qed.
+
+Lemma finalize_frame e fault p t f0 ip meta fo y s :
+  p <> t -> names f0 p = Some ip -> ip < next_ino f0 -> next_ino f0 <= fo -> clean f0 t s ->
+  frame_inv f0 p t ip (s_fs (fst (finalize_mod e fault Real p t meta (OutTmp fo) y s))).
+Proof.
+  intros Hpt Hp Hip Hfo Hc. unfold finalize_mod.
+  assert (CF : forall s', clean f0 t s' -> frame_inv f0 p t ip (s_fs s')) by (intros s' [A _]; apply pre_commit_frame, A).
+  destruct (i_nlink meta =? 1).
+  - (* single link: lchown, fchmod, futimens, rename *)
+    pose proof (issue_clean e fault f0 t (OLchown t (i_uid meta) (i_gid meta)) s Hc eq_refl) as H1.
+    destruct (issue e fault (OLchown t (i_uid meta) (i_gid meta)) s) as [s1 r1]. cbn [fst] in H1.
+    assert (Hgo : frame_inv f0 p t ip (s_fs (fst
+      (step e fault t (OutTmp fo) (OFchmod fo (i_mode meta)) s1 (fun s2 =>
+       step e fault t (OutTmp fo) (OFutimens fo (i_mtime meta)) s2 (fun s3 =>
+       step e fault t (OutTmp fo) (ORename t p) s3 (fun s4 => (s4, Some Replaced)))))))).
+    { unfold step.
+      pose proof (issue_clean e fault f0 t (OFchmod fo (i_mode meta)) s1 H1 Hfo) as H2.
+      destruct (issue e fault (OFchmod fo (i_mode meta)) s1) as [s2 r2]. cbn [fst] in H2.
+      destruct r2; [cbn [fst]; apply CF, cleanup_clean, H2|].
+      pose proof (issue_clean e fault f0 t (OFutimens fo (i_mtime meta)) s2 H2 Hfo) as H3.
+      destruct (issue e fault (OFutimens fo (i_mtime meta)) s2) as [s3 r3]. cbn [fst] in H3.
+      destruct r3; [cbn [fst]; apply CF, cleanup_clean, H3|].
+      destruct (issue_cases e fault (ORename t p) s3) as [(er & E)|E]; rewrite E.
+      - cbn [fst]. apply CF, cleanup_clean. destruct H3 as [A B]. split; assumption.
+      - destruct (snd (apply_op e (s_fs s3) (ORename t p))) as [er|] eqn:Er.
+        + cbn [fst]. apply CF, cleanup_clean. rewrite (apply_op_fail _ _ _ _ Er).
+          destruct H3 as [A B]. split; cbn [s_fs s_hist]; [exact A | constructor; assumption].
+        + cbn [fst s_fs]. destruct (clean_fgood f0 p t ip s3 Hpt Hp H3) as (F & T & P).
+          apply own_op_frame; try assumption. split; reflexivity. }
+    destruct r1 as [er|]; [|exact Hgo]. destruct er; try exact Hgo; cbn [fst]; apply CF, cleanup_clean, H1.
+  - (* several links: rewrite in place *)
+    unfold step.
+    pose proof (issue_clean e fault f0 t (OOpenWrite p) s Hc I) as H1.
+    destruct (issue e fault (OOpenWrite p) s) as [s1 r1]. cbn [fst] in H1.
+    destruct r1; [cbn [fst]; apply CF, cleanup_clean, H1|].
+    destruct (names (s_fs s1) p) as [ip'|] eqn:Ep; [|cbn [fst]; apply CF, cleanup_clean, H1].
+    assert (ip' = ip).
+    { destruct H1 as [(A & _) _]. rewrite A in Ep by exact Hpt. rewrite Hp in Ep. injection Ep as <-. reflexivity. }
+    subst ip'.
+    pose proof (clean_fgood f0 p t ip s1 Hpt Hp H1) as G1.
+    pose proof (issue_fgood e fault f0 p t ip (OWrite ip 0 y) s1 Hpt Hip G1 eq_refl) as G2.
+    destruct (issue e fault (OWrite ip 0 y) s1) as [s2 r2]. cbn [fst] in G2.
+    destruct r2; [cbn [fst]; apply (cleanup_fgood e fault f0 p t ip _ s2 Hpt Hip G2)|].
+    pose proof (issue_fgood e fault f0 p t ip (OTruncate ip (length y)) s2 Hpt Hip G2 eq_refl) as G3.
+    destruct (issue e fault (OTruncate ip (length y)) s2) as [s3 r3]. cbn [fst] in G3.
+    destruct r3; [cbn [fst]; apply (cleanup_fgood e fault f0 p t ip _ s3 Hpt Hip G3)|].
+    pose proof (issue_fgood e fault f0 p t ip (OFutimens ip (i_mtime meta)) s3 Hpt Hip G3 eq_refl) as G4.
+    destruct (issue e fault (OFutimens ip (i_mtime meta)) s3) as [s4 r4]. cbn [fst] in G4.
+    destruct r4; cbn [fst]; apply (cleanup_fgood e fault f0 p t ip _ s4 Hpt Hip G4).
+Qed.
+
+(* One handler on one file, real mode, any link count, any handler result, any single fault:
+   every name other than the file and its hidden temp name is bound as before, and every inode that existed
+   before — other than the file's own, and a stale temp file's — is unchanged. *)
+Theorem run_frame e fault prof eager handler p f0 ip meta :
+  names f0 p = Some ip -> inodes f0 ip = Some meta -> ip < next_ino f0 -> names f0 (tmp_path p) <> Some ip ->
+  frame_inv f0 p (tmp_path p) ip (s_fs (fst (run_handler e fault Real prof eager handler p (init_sim f0)))).
+Proof.
+  intros Hp Hi Hlt Hnt. set (t := tmp_path p).
+  assert (Hpt : p <> t) by (apply not_eq_sym, tmp_path_neq).
+  assert (CF : forall s', clean f0 t s' -> frame_inv f0 p t ip (s_fs s')) by (intros s' [A _]; apply pre_commit_frame, A).
+  assert (C0 : clean f0 t (init_sim f0)).
+  { split; [apply pre_commit_refl | constructor; [apply pre_commit_refl | constructor]]. }
+  unfold run_handler. cbv zeta. fold t.
+  pose proof (issue_clean e fault f0 t (OOpenRead p) _ C0 I) as C1.
+  destruct (issue e fault (OOpenRead p) (init_sim f0)) as [s1 r1]. cbn [fst] in C1.
+  destruct r1; [apply CF, C1|].
+  destruct (names (s_fs s1) p) as [ip'|] eqn:Ep1; [|apply CF, C1].
+  pose proof (issue_clean e fault f0 t (OFstat ip') _ C1 I) as C2.
+  destruct (issue e fault (OFstat ip') s1) as [s2 r2]. cbn [fst] in C2.
+  destruct r2; [apply CF, C2|].
+  destruct (inodes (s_fs s2) ip') as [meta'|] eqn:Ei2; [|apply CF, C2].
+  set (res := handler (i_data meta')).
+  assert (Hafter : forall o s3, clean f0 t s3 ->
+            (o = OutNone \/ exists fo, o = OutTmp fo /\ next_ino f0 <= fo) ->
+            (o = OutNone -> forall y, res <> Ok (y, true)) ->
+     frame_inv f0 p t ip (s_fs (fst (match res with
+        | Panic => match prof with Debug => (cleanup e fault t o s3, None) | Release => (s3, None) end
+        | Bad => (cleanup e fault t o s3, Some BadFormat)
+        | Err => (cleanup e fault t o s3, Some Error)
+        | Ok (_, false) => (cleanup e fault t o s3, Some Noop)
+        | Ok (y, true) =>
+            match o with
+            | OutTmp fo => step e fault t o (OWrite fo 0 y) s3 (fun s4 => finalize_mod e fault Real p t meta' o y s4)
+            | _ => finalize_mod e fault Real p t meta' o y s3
+            end
+        end)))).
+  { intros o s3 C3 Ho Hnone.
+    destruct res as [[y [|]]| | |]; cbn [fst].
+    - destruct Ho as [->|(fo & -> & Hfo)]; [exfalso; exact (Hnone eq_refl y eq_refl)|].
+      unfold step.
+      pose proof (issue_clean e fault f0 t (OWrite fo 0 y) _ C3 Hfo) as C4.
+      destruct (issue e fault (OWrite fo 0 y) s3) as [s4 r4]. cbn [fst] in C4.
+      destruct r4; [cbn [fst]; apply CF, cleanup_clean, C4|].
+      apply finalize_frame; assumption.
+    - apply CF, cleanup_clean, C3.
+    - apply CF, cleanup_clean, C3.
+    - apply CF, cleanup_clean, C3.
+    - destruct prof; cbn [fst]; [apply CF, cleanup_clean, C3 | apply CF, C3]. }
+  assert (Hopen : forall s', clean f0 t s' ->
+            clean f0 t (fst (open_output e fault Real t s')) /\
+            (forall o, snd (open_output e fault Real t s') = Some o -> exists fo, o = OutTmp fo /\ next_ino f0 <= fo)).
+  { intros s' A. unfold open_output.
+    destruct (open_output_real_clean e fault f0 t s' A) as [C D].
+    destruct (open_output_real e fault t s') as [s3 [i|]]; cbn [fst snd] in *.
+    - split; [assumption|]. intros o E; injection E as <-. exists i. split; [reflexivity | apply D; reflexivity].
+    - split; [assumption | discriminate]. }
+  destruct (eager (i_data meta')).
+  - destruct (Hopen s2 C2) as [C3 Ho].
+    destruct (open_output e fault Real t s2) as [s3 [o|]]; cbn [fst snd] in *; [|apply CF, C3].
+    apply Hafter; [exact C3 | right; apply Ho; reflexivity|].
+    intros ->. destruct (Ho _ eq_refl) as (fo & E & _). discriminate.
+  - fold res. destruct res as [[y [|]]| | |] eqn:Eres.
+    + destruct (Hopen s2 C2) as [C3 Ho].
+      destruct (open_output e fault Real t s2) as [s3 [o|]]; cbn [fst snd] in *; [|apply CF, C3].
+      apply Hafter; [exact C3 | right; apply Ho; reflexivity|].
+      intros ->. destruct (Ho _ eq_refl) as (fo & E & _). discriminate.
+    + apply (Hafter OutNone s2 C2 (or_introl eq_refl)). intros _ y' E. discriminate.
+    + apply (Hafter OutNone s2 C2 (or_introl eq_refl)). intros _ y' E. discriminate.
+    + apply (Hafter OutNone s2 C2 (or_introl eq_refl)). intros _ y' E. discriminate.
+    + apply (Hafter OutNone s2 C2 (or_introl eq_refl)). intros _ y' E. discriminate.
+Qed.
+
+(* ---------- anything but Replaced leaves a single-link file in a pre-commit state (C14: Noop, errors) ---------- *)
+Lemma finalize_single_not_replaced e fault p t f0 meta fo y s :
+  i_nlink meta = 1 -> next_ino f0 <= fo -> clean f0 t s ->
+  snd (finalize_mod e fault Real p t meta (OutTmp fo) y s) <> Some Replaced ->
+  clean f0 t (fst (finalize_mod e fault Real p t meta (OutTmp fo) y s)).
+Proof.
+  intros Hn Hfo Hc. unfold finalize_mod. rewrite Hn, N.eqb_refl.
+  pose proof (issue_clean e fault f0 t (OLchown t (i_uid meta) (i_gid meta)) s Hc eq_refl) as H1.
+  destruct (issue e fault (OLchown t (i_uid meta) (i_gid meta)) s) as [s1 r1]. cbn [fst] in H1.
+  assert (Hgo :
+    snd (step e fault t (OutTmp fo) (OFchmod fo (i_mode meta)) s1 (fun s2 =>
+         step e fault t (OutTmp fo) (OFutimens fo (i_mtime meta)) s2 (fun s3 =>
+         step e fault t (OutTmp fo) (ORename t p) s3 (fun s4 => (s4, Some Replaced))))) <> Some Replaced ->
+    clean f0 t (fst
+        (step e fault t (OutTmp fo) (OFchmod fo (i_mode meta)) s1 (fun s2 =>
+         step e fault t (OutTmp fo) (OFutimens fo (i_mtime meta)) s2 (fun s3 =>
+         step e fault t (OutTmp fo) (ORename t p) s3 (fun s4 => (s4, Some Replaced))))))).
+  { unfold step.
+    pose proof (issue_clean e fault f0 t (OFchmod fo (i_mode meta)) s1 H1 Hfo) as H2.
+    destruct (issue e fault (OFchmod fo (i_mode meta)) s1) as [s2 r2]. cbn [fst] in H2.
+    destruct r2; [cbn [fst snd]; intros _; apply cleanup_clean, H2|].
+    pose proof (issue_clean e fault f0 t (OFutimens fo (i_mtime meta)) s2 H2 Hfo) as H3.
+    destruct (issue e fault (OFutimens fo (i_mtime meta)) s2) as [s3 r3]. cbn [fst] in H3.
+    destruct r3; [cbn [fst snd]; intros _; apply cleanup_clean, H3|].
+    destruct (issue_cases e fault (ORename t p) s3) as [(er & E)|E]; rewrite E.
+    - cbn [fst snd]. intros _. apply cleanup_clean. destruct H3 as [A B]. split; assumption.
+    - destruct (snd (apply_op e (s_fs s3) (ORename t p))) as [er|] eqn:Er; cbn [fst snd].
+      + intros _. apply cleanup_clean. rewrite (apply_op_fail _ _ _ _ Er).
+        destruct H3 as [A B]. split; cbn [s_fs s_hist]; [exact A | constructor; assumption].
+      + intros H. exfalso. apply H. reflexivity. }
+  destruct r1 as [er|]; [|exact Hgo]. destruct er; try exact Hgo; cbn [fst snd]; intros _; apply cleanup_clean, H1.
+Qed.
+
+Theorem not_replaced_untouched e fault prof eager handler p f0 ip meta :
+  names f0 p = Some ip -> inodes f0 ip = Some meta -> i_nlink meta = 1 ->
+  ip < next_ino f0 -> names f0 (tmp_path p) <> Some ip ->
+  snd (run_handler e fault Real prof eager handler p (init_sim f0)) <> Some Replaced ->
+  clean f0 (tmp_path p) (fst (run_handler e fault Real prof eager handler p (init_sim f0))).
+Proof.
+  intros Hp Hi Hn Hlt Hnt. set (t := tmp_path p).
+  assert (Hpt : p <> t) by (apply not_eq_sym, tmp_path_neq).
+  assert (C0 : clean f0 t (init_sim f0)).
+  { split; [apply pre_commit_refl | constructor; [apply pre_commit_refl | constructor]]. }
+  unfold run_handler. cbv zeta. fold t.
+  pose proof (issue_clean e fault f0 t (OOpenRead p) _ C0 I) as C1.
+  destruct (issue e fault (OOpenRead p) (init_sim f0)) as [s1 r1]. cbn [fst] in C1.
+  destruct r1; [intros _; exact C1|].
+  destruct (names (s_fs s1) p) as [ip'|] eqn:Ep1; [|intros _; exact C1].
+  pose proof (issue_clean e fault f0 t (OFstat ip') _ C1 I) as C2.
+  destruct (issue e fault (OFstat ip') s1) as [s2 r2]. cbn [fst] in C2.
+  destruct r2; [intros _; exact C2|].
+  destruct (inodes (s_fs s2) ip') as [meta'|] eqn:Ei2; [|intros _; exact C2].
+  assert (Hmeta : meta' = meta).
+  { destruct C1 as [(Hn1 & _) _]. destruct C2 as [(_ & Hi2 & _) _].
+    rewrite Hn1 in Ep1 by exact Hpt. rewrite Hp in Ep1. injection Ep1 as <-.
+    rewrite Hi2 in Ei2 by assumption. rewrite Hi in Ei2. injection Ei2 as <-. reflexivity. }
+  subst meta'.
+  set (res := handler (i_data meta)).
+  assert (Hafter : forall o s3, clean f0 t s3 ->
+            (o = OutNone \/ exists fo, o = OutTmp fo /\ next_ino f0 <= fo) ->
+            (o = OutNone -> forall y, res <> Ok (y, true)) ->
+     let r := match res with
+        | Panic => match prof with Debug => (cleanup e fault t o s3, None) | Release => (s3, None) end
+        | Bad => (cleanup e fault t o s3, Some BadFormat)
+        | Err => (cleanup e fault t o s3, Some Error)
+        | Ok (_, false) => (cleanup e fault t o s3, Some Noop)
+        | Ok (y, true) =>
+            match o with
+            | OutTmp fo => step e fault t o (OWrite fo 0 y) s3 (fun s4 => finalize_mod e fault Real p t meta o y s4)
+            | _ => finalize_mod e fault Real p t meta o y s3
+            end
+        end in
+     snd r <> Some Replaced -> clean f0 t (fst r)).
+  { intros o s3 C3 Ho Hnone. cbv zeta.
+    destruct res as [[y [|]]| | |]; cbn [fst snd].
+    - destruct Ho as [->|(fo & -> & Hfo)]; [exfalso; exact (Hnone eq_refl y eq_refl)|].
+      unfold step.
+      pose proof (issue_clean e fault f0 t (OWrite fo 0 y) _ C3 Hfo) as C4.
+      destruct (issue e fault (OWrite fo 0 y) s3) as [s4 r4]. cbn [fst snd] in *.
+      destruct r4; [cbn [fst snd]; intros _; apply cleanup_clean, C4|].
+      apply finalize_single_not_replaced; assumption.
+    - intros _. apply cleanup_clean, C3.
+    - intros _. apply cleanup_clean, C3.
+    - intros _. apply cleanup_clean, C3.
+    - destruct prof; cbn [fst snd]; intros _; [apply cleanup_clean, C3 | exact C3]. }
+  assert (Hopen : forall s', clean f0 t s' ->
+            clean f0 t (fst (open_output e fault Real t s')) /\
+            (forall o, snd (open_output e fault Real t s') = Some o -> exists fo, o = OutTmp fo /\ next_ino f0 <= fo)).
+  { intros s' A. unfold open_output.
+    destruct (open_output_real_clean e fault f0 t s' A) as [C D].
+    destruct (open_output_real e fault t s') as [s3 [i|]]; cbn [fst snd] in *.
+    - split; [assumption|]. intros o E; injection E as <-. exists i. split; [reflexivity | apply D; reflexivity].
+    - split; [assumption | discriminate]. }
+  destruct (eager (i_data meta)).
+  - destruct (Hopen s2 C2) as [C3 Ho].
+    destruct (open_output e fault Real t s2) as [s3 [o|]]; cbn [fst snd] in *; [|intros _; exact C3].
+    apply Hafter; [exact C3 | right; apply Ho; reflexivity|].
+    intros ->. destruct (Ho _ eq_refl) as (fo & E & _). discriminate.
+  - fold res. destruct res as [[y [|]]| | |] eqn:Eres.
+    + destruct (Hopen s2 C2) as [C3 Ho].
+      destruct (open_output e fault Real t s2) as [s3 [o|]]; cbn [fst snd] in *; [|intros _; exact C3].
+      apply Hafter; [exact C3 | right; apply Ho; reflexivity|].
+      intros ->. destruct (Ho _ eq_refl) as (fo & E & _). discriminate.
+    + apply (Hafter OutNone s2 C2 (or_introl eq_refl)). intros _ y' E. discriminate.
+    + apply (Hafter OutNone s2 C2 (or_introl eq_refl)). intros _ y' E. discriminate.
+    + apply (Hafter OutNone s2 C2 (or_introl eq_refl)). intros _ y' E. discriminate.
+    + apply (Hafter OutNone s2 C2 (or_introl eq_refl)). intros _ y' E. discriminate.
+Qed.
+
+(* ---------- the names a run can touch, with no hypothesis on the state (C13) ---------- *)
+Definition names_local (p t : path) (o : op) : Prop :=
+  match o with
+  | OCreateExcl q | OUnlink q | OLchown q _ _ => q = t
+  | ORename a b => a = t /\ b = p
+  | _ => True
+  end.
+
+Definition names_frame (f0 : fs) (p t : path) (f : fs) : Prop := forall q, q <> p -> q <> t -> names f q = names f0 q.
+
+Lemma names_local_frame e f0 p t f o : names_frame f0 p t f -> names_local p t o -> names_frame f0 p t (fst (apply_op e f o)).
+Proof.
+  intros H Ho q Hq1 Hq2. destruct o; cbn [names_local] in Ho; cbn [apply_op].
+  - destruct (names f p0); apply H; assumption.
+  - apply H; assumption.
+  - subst p0. destruct (names f t); cbn [fst names]; [apply H; assumption|]. rewrite path_eqb_neq by exact Hq2. apply H; assumption.
+  - apply H; assumption.
+  - subst p0. destruct (names f t); cbn [fst]; [|apply H; assumption]. rewrite upd_inode_names. cbn [set_name names].
+    rewrite path_eqb_neq by exact Hq2. apply H; assumption.
+  - cbn [fst]. rewrite upd_inode_names. apply H; assumption.
+  - cbn [fst]. rewrite upd_inode_names. apply H; assumption.
+  - cbn [fst]. rewrite upd_inode_names. apply H; assumption.
+  - subst p0. destruct (names f t) as [j|]; [|apply H; assumption]. destruct (inodes f j) as [n|]; [|apply H; assumption].
+    destruct (e_can_chown e || _); cbn [fst set_inode names]; apply H; assumption.
+  - destruct Ho as [-> ->]. destruct (names f t) as [i|]; cbn [fst]; [|apply H; assumption].
+    cbn [set_name names]. rewrite !path_eqb_neq by assumption.
+    destruct (names f p) as [j|]; [destruct (j =? i); [|rewrite upd_inode_names]|]; apply H; assumption.
+  - destruct (names f p0); apply H; assumption.
+  - cbn [fst]. rewrite upd_inode_names. apply H; assumption.
+Qed.
+
+Lemma issue_names e fault f0 p t o s :
+  names_frame f0 p t (s_fs s) -> names_local p t o -> names_frame f0 p t (s_fs (fst (issue e fault o s))).
+Proof.
+  intros H Ho. destruct (issue_fs e fault o s) as [E|[E _]]; rewrite E; [exact H | apply names_local_frame; assumption].
+Qed.
+
+Theorem run_names_frame e fault m prof eager handler p s f0 :
+  names_frame f0 p (tmp_path p) (s_fs s) ->
+  names_frame f0 p (tmp_path p) (s_fs (fst (run_handler e fault m prof eager handler p s))).
+Proof.
+  intros H0. set (t := tmp_path p) in *.
+  assert (Hi : forall o s', names_frame f0 p t (s_fs s') -> names_local p t o -> names_frame f0 p t (s_fs (fst (issue e fault o s'))))
+    by (intros; apply issue_names; assumption).
+  assert (Hcl : forall o s', names_frame f0 p t (s_fs s') -> names_frame f0 p t (s_fs (cleanup e fault t o s'))).
+  { intros o s' H. destruct o; cbn [cleanup]; try exact H. apply Hi; [exact H | reflexivity]. }
+  assert (Hstep : forall o x s' k, names_frame f0 p t (s_fs s') -> names_local p t x ->
+            (forall s1, names_frame f0 p t (s_fs s1) -> names_frame f0 p t (s_fs (fst (k s1)))) ->
+            names_frame f0 p t (s_fs (fst (step e fault t o x s' k)))).
+  { intros o x s' k H Hx Hk. unfold step. pose proof (Hi x s' H Hx) as H1.
+    destruct (issue e fault x s') as [s1 r]. cbn [fst] in H1. destruct r; [cbn [fst]; apply Hcl, H1 | apply Hk, H1]. }
+  assert (Hopen : forall s', names_frame f0 p t (s_fs s') -> names_frame f0 p t (s_fs (fst (open_output e fault m t s')))).
+  { intros s' H. unfold open_output. destruct m.
+    - unfold open_output_real.
+      pose proof (Hi (OCreateExcl t) s' H eq_refl) as H1.
+      destruct (issue e fault (OCreateExcl t) s') as [s1 r1]. cbn [fst] in H1.
+      destruct r1 as [er|]; cbn [fst]; [|exact H1].
+      destruct er; cbn [fst]; try exact H1.
+      pose proof (Hi (OUnlink t) s1 H1 eq_refl) as H2.
+      destruct (issue e fault (OUnlink t) s1) as [s2 r2]. cbn [fst] in H2.
+      destruct r2; cbn [fst]; [exact H2|].
+      pose proof (Hi (OCreateExcl t) s2 H2 eq_refl) as H3.
+      destruct (issue e fault (OCreateExcl t) s2) as [s3 r3]. cbn [fst] in H3. destruct r3; exact H3.
+    - pose proof (Hi OOpenDevNull s' H I) as H1.
+      destruct (issue e fault OOpenDevNull s') as [s1 r1]. cbn [fst] in H1. destruct r1; exact H1. }
+  assert (Hfin : forall meta o y s', names_frame f0 p t (s_fs s') ->
+            names_frame f0 p t (s_fs (fst (finalize_mod e fault m p t meta o y s')))).
+  { intros meta o y s' H. unfold finalize_mod. destruct o; try exact H.
+    destruct (i_nlink meta =? 1).
+    - pose proof (Hi (OLchown t (i_uid meta) (i_gid meta)) s' H eq_refl) as H1.
+      destruct (issue e fault (OLchown t (i_uid meta) (i_gid meta)) s') as [s1 r1]. cbn [fst] in H1.
+      assert (G : names_frame f0 p t (s_fs (fst
+          (step e fault t (OutTmp i) (OFchmod i (i_mode meta)) s1 (fun s2 =>
+           step e fault t (OutTmp i) (OFutimens i (i_mtime meta)) s2 (fun s3 =>
+           step e fault t (OutTmp i) (ORename t p) s3 (fun s4 => (s4, Some Replaced)))))))).
+      { apply Hstep; [exact H1 | exact I|]. intros s2 H2. apply Hstep; [exact H2 | exact I|]. intros s3 H3.
+        apply Hstep; [exact H3 | split; reflexivity|]. intros s4 H4. exact H4. }
+      destruct r1 as [er|]; [|exact G]. destruct er; try exact G; cbn [fst]; apply Hcl, H1.
+    - apply Hstep; [exact H | exact I|]. intros s1 H1.
+      destruct (names (s_fs s1) p); [|cbn [fst]; apply Hcl, H1].
+      apply Hstep; [exact H1 | exact I|]. intros s2 H2. apply Hstep; [exact H2 | exact I|]. intros s3 H3.
+      apply Hstep; [exact H3 | exact I|]. intros s4 H4. cbn [fst]. apply Hcl, H4. }
+  unfold run_handler. cbv zeta. fold t.
+  pose proof (Hi (OOpenRead p) s H0 I) as H1.
+  destruct (issue e fault (OOpenRead p) s) as [s1 r1]. cbn [fst] in H1.
+  destruct r1; [exact H1|]. destruct (names (s_fs s1) p) as [ip|]; [|exact H1].
+  pose proof (Hi (OFstat ip) s1 H1 I) as H2.
+  destruct (issue e fault (OFstat ip) s1) as [s2 r2]. cbn [fst] in H2.
+  destruct r2; [exact H2|]. destruct (inodes (s_fs s2) ip) as [meta|]; [|exact H2].
+  assert (Hafter : forall o s3 res, names_frame f0 p t (s_fs s3) ->
+     names_frame f0 p t (s_fs (fst (match res with
+        | Panic => match prof with Debug => (cleanup e fault t o s3, None) | Release => (s3, None) end
+        | Bad => (cleanup e fault t o s3, Some BadFormat)
+        | Err => (cleanup e fault t o s3, Some Error)
+        | Ok (_, false) => (cleanup e fault t o s3, Some Noop)
+        | Ok (y, true) =>
+            match o with
+            | OutTmp fo => step e fault t o (OWrite fo 0 y) s3 (fun s4 => finalize_mod e fault m p t meta o y s4)
+            | _ => finalize_mod e fault m p t meta o y s3
+            end
+        end : sim * option presult)))).
+  { intros o s3 res H3. destruct res as [[y [|]]| | |]; cbn [fst]; try (apply Hcl, H3).
+    - destruct o; try (apply Hfin, H3). apply Hstep; [exact H3 | exact I|]. intros s4 H4. apply Hfin, H4.
+    - destruct prof; cbn [fst]; [apply Hcl, H3 | exact H3]. }
+  destruct (eager (i_data meta)).
+  - pose proof (Hopen s2 H2) as H3. destruct (open_output e fault m t s2) as [s3 [o|]]; cbn [fst] in H3; [|exact H3].
+    apply Hafter, H3.
+  - destruct (handler (i_data meta)) as [[y [|]]| | |] eqn:Eres.
+    + pose proof (Hopen s2 H2) as H3. destruct (open_output e fault m t s2) as [s3 [o|]]; cbn [fst] in H3; [|exact H3].
+      apply (Hafter o s3 (Ok (y, true)) H3).
+    + apply (Hafter OutNone s2 (Ok (y, false)) H2).
+    + apply (Hafter OutNone s2 Bad H2).
+    + apply (Hafter OutNone s2 Err H2).
+    + apply (Hafter OutNone s2 Panic H2).
+Qed.
